@@ -136,6 +136,7 @@ def run_shard(pid, tier, seed, shard, nshards, out):
         for case in mod.generate(tier, seed, shard, nshards):
             ctx.case = case
             tc = time.time()
+            cpu0 = time.process_time()
             signal.alarm(limit)
             try:
                 mod.judge(case, ctx)
@@ -144,7 +145,10 @@ def run_shard(pid, tier, seed, shard, nshards, out):
             except CaseTimeout:
                 signal.alarm(0)
                 med = statistics.median(durations) if durations else 0.05
-                if limit > 1000 * max(med, 0.01):
+                # the verdict is about the code, not about the machine: a case that was merely waiting (for the CPU on a loaded machine,
+                # for a child process) has used little processor time of its own - that is inconclusive, never a violation
+                busy = (time.process_time() - cpu0) >= 0.8 * limit
+                if busy and limit > 1000 * max(med, 0.01):
                     ctx.violation(f'{pid}/non-termination', f'one case did not finish within {limit} s (median case time in this shard {med:.3f} s)', {})
                 else:
                     ctx.harness_errors.append({'case': jsonable(case), 'traceback': f'case exceeded {limit} s (median {med:.3f} s): inconclusive'})
